@@ -261,6 +261,16 @@ func init() {
 		}
 		return Conc("false")
 	}
+	// maps.Clone of any instantiation ends in the run time's maps.clone(any) any
+	intrinsics["maps.clone"] = func(c *Ctx, a []Value) Value {
+		if iv, ok := a[0].(Iface); ok {
+			if m, ok := iv.V.(*Map); ok {
+				return Iface{T: iv.T, V: m.Clone()}
+			}
+		}
+		c.Unsupported("maps.clone of %T", a[0])
+		return nil
+	}
 	// generic instances are named with their type arguments; register the common spellings
 	for _, n := range []string{
 		"maps.Clone[map[string]github.com/monstermichl/typeshell/parser.Variable string github.com/monstermichl/typeshell/parser.Variable]",
